@@ -78,6 +78,34 @@ func (g *pgen) anyExpr() *Expr {
 	case 1:
 		return &Expr{K: "asset", S: gen.Pick(g.r, assetPool)}
 	case 2:
+		if g.r.Intn(4) == 0 {
+			// arithmetic with a NUMBER on the left and anything on the right (mostly ill-typed:
+			// the compiler must reject `number +/- <non-number>`, the VM would panic on it)
+			var rhs *Expr
+			switch g.r.Intn(6) {
+			case 0:
+				rhs = &Expr{K: "acct", S: g.acctName()}
+			case 1:
+				rhs = &Expr{K: "asset", S: gen.Pick(g.r, assetPool)}
+			case 2:
+				rhs = &Expr{K: "str", S: gen.Pick(g.r, strPool)}
+			case 3:
+				rhs = &Expr{K: "portion", S: g.portionLit()}
+			case 4:
+				rhs = &Expr{K: "mon", A: &Expr{K: "asset", S: gen.Pick(g.r, assetPool)}, N: g.amount()}
+			default:
+				if len(g.vars) > 0 {
+					rhs = &Expr{K: "var", S: gen.Pick(g.r, g.vars).name}
+				} else {
+					rhs = &Expr{K: "num", S: "3"}
+				}
+			}
+			op := "add"
+			if g.r.Intn(2) == 0 {
+				op = "sub"
+			}
+			return &Expr{K: op, L: g.numExpr(1), R: rhs}
+		}
 		return g.numExpr(1)
 	case 3:
 		return &Expr{K: "str", S: gen.Pick(g.r, strPool)}
